@@ -194,6 +194,34 @@ def g_message_media(v, participant, opts, encrypted=False):
     return _message(v, participant, opts, "media", mt, data, encrypted)
 
 
+_SKDM = []
+
+
+def skdm_field(v):
+    """serialized Message holding only a sender key distribution (concatenated to another serialized Message it adds
+    that field: protobuf merges concatenated encodings)"""
+    if not _SKDM:
+        from yowsup.layers.protocol_messages.proto.e2e_pb2 import Message
+        for i in range(3):
+            m = Message()
+            m.sender_key_distribution_message.group_id = S.G[i]
+            m.sender_key_distribution_message.axolotl_sender_key_distribution_message = bytes(range(10 + i))
+            _SKDM.append(m.SerializeToString())
+    return _SKDM[v % 3]
+
+
+SKDM_MEDIATYPES = ("contact_array", "hsm", "livelocation")
+
+
+def g_message_media_skdm(v, participant, opts, encrypted=False):
+    """a participant's first group message: an unpresentable payload (several contacts, a templated business message)
+    that carries the sender key along"""
+    name = ("contacts-array", "hsm", "contacts-array")[v % 3]
+    data = payloads()[name][(v // 3) % 3] + skdm_field(v)
+    return _message(v, participant, opts, "media", SKDM_MEDIATYPES[v % 3], data, encrypted)
+
+
+
 class Kind(object):
     def __init__(self, name, gen, answer, participant=(False, True), encryptable=False, in_scope=None, vectors=None):
         self.name = name
@@ -223,6 +251,10 @@ KINDS.append(Kind("message-empty-proto", g_message_plain(["empty"]), "message"))
 # with the media module an image / contact / url message is presented (C06), i.e. outside this quantifier
 KINDS.append(Kind("message-media", g_message_media, "message", vectors=6, encryptable=True,
                   in_scope=lambda cfg, v: (not cfg.media) or v % 6 < 3))
+# the same with a sender key distribution riding along (media module on: without it no media message is answered at
+# all, which is the recorded finding C07:message-media:no-receipt:media-off)
+KINDS.append(Kind("message-media-with-sender-key", g_message_media_skdm, "message", vectors=6, participant=(True,),
+                  in_scope=lambda cfg, v: cfg.media))
 KIND = dict((k.name, k) for k in KINDS)
 assert len(KIND) == len(KINDS)
 
